@@ -302,7 +302,7 @@ fn programs() -> Vec<(&'static str, Option<String>)> {
         ("well-formed", Some("10 PRINT \"hi\"\n20 X = 2\n30 PRINT X\n".into())),
         ("untokenizable line", Some("10 PRINT 1\n20 C% = 1\n30 PRINT 2\n".into())),
         ("unnumbered line", Some("10 PRINT 1\nPRINT 9\n20 PRINT 2\n".into())),
-        ("blank lines and CRLF", Some("10 PRINT 1\r\n\r\n20 PRINT 2\r\n".into())),
+        ("blank lines and CRLF", Some("5 REM c\r\n10 PRINT 1\r\n\r\n20 PRINT 2\r\n".into())),
         ("awaits input", Some("10 INPUT A\n20 PRINT A*2\n".into())),
         ("ends in an error", Some("10 PRINT \"a\"\n20 PRINT 1/0\n".into())),
         ("loops forever", Some("10 X = X + 1\n20 GOTO 10\n".into())),
